@@ -433,7 +433,7 @@ theorem step_InvG {cfg : Cfg} {s : St} (i : InvG s) (ev : Ev) : InvG (step cfg s
     simp only [step]
     split
     · exact i
-    · exact InvG.of_gcore (by rw [gcore_enterClose, gcore_setStatus]) i
+    · exact InvG.of_gcore (by rw [gcore_enterClose, gcore_setProg, gcore_setStatus]) i
   | callInitiateClose => exact InvG.of_gcore (gcore_initiateClose _) i
   | callLogout =>
     exact InvG.of_gcore (s := s.emit (.write .logout)) (by simp only [step]; rw [gcore_initiateClose]; rfl) (i.emit rfl)
